@@ -429,7 +429,7 @@ def run(ck):
                 if items is None or len(items) != len(nets):
                     continue
                 pt = pr.term
-                Z = T.app("sum", pt, "all")
+                Z = T.app("sum", pt, (-1,))  # probabilities over the space: a vector, reduced over its only axis
                 want0 = T.sym("P_rbm_am") - T.app("matmul", T.app("t", G.term), pt * T.inv(Z))
                 got0 = items[0].term
                 if got0 == want0:
